@@ -449,6 +449,19 @@ class Int(Field):
         return fragments
 
 
+def _regexp_as_a_group(regexp):
+    ''' The pattern of a compiled regular expression as a group that can be
+        put in the middle of another expression: an alternative (a|b) stays
+        inside the group and the flags of the expression are still in force
+        there. '''
+    flags = ''.join(
+        letter for letter, flag in
+        (('i', re.I), ('m', re.M), ('s', re.S), ('x', re.X))
+        if regexp.flags & flag
+    )
+    return b"(?" + flags.encode('ascii') + b":" + regexp.pattern + b")"
+
+
 @defer_operations(allowed_categories=['sequence'])
 class Data(Field):
     def __init__(
@@ -698,7 +711,7 @@ class Data(Field):
                 endswith = (
                     re.escape(self.until_marker)
                     if isinstance(self.until_marker, bytes) else
-                    self.until_marker.pattern
+                    _regexp_as_a_group(self.until_marker)
                 )
                 fragments.append(custom_regexp + endswith, is_literal=False)
 
